@@ -1,6 +1,7 @@
 import TexelVerif.Chess.SpecLemmas
 import TexelVerif.Chess.KingRay
 import TexelVerif.Chess.TexelGenEvade
+import TexelVerif.Chess.TexelGenGivesCastle
 /-!
 # C01 — generated legal moves are exactly the legal moves of chess
 
@@ -189,6 +190,43 @@ theorem texel_kingsApart_of_check (p : Pos) (k : Sq) (h : Texel.kingsApartB p k 
 
 /-- the decidable form of the hypotheses, evaluated by the driver on every tested position -/
 theorem texel_genWF_of_check (p : Pos) (k : Sq) (h : Texel.genWFb p k = true) : Texel.GenWF p k := Texel.genWF_of_b p k h
+
+/-! ## `MoveGen::givesCheck` (moveGen.cpp:458-571; model `Texel.givesCheck`, proof `Chess/TexelGenGives*.lean`)
+
+Hypotheses `Texel.GcWF p ok`: piece codes 0..12; the side **not** to move has its king on `ok = pos.getKingSq(!wtm)` and
+nowhere else; that king is not attacked (`readFEN` rejects such positions, `makeMove` of a legal move never produces
+one); the en-passant square, if any, is empty, lies on the mover's sixth rank and has the double-stepped pawn behind it.
+All evaluated by the driver on every tested position (`Texel.gcWFb`). -/
+
+/-- **`MoveGen::givesCheck` for every pseudo-legal move** that does not put the mover's king next to the opponent's king:
+    the verdict equals "the opponent is in check on the board after the move".  Covers the first `switch` (direct check by
+    queen/rook/bishop along an open line, pawn, knight), the discovered check through the from-square (`d2 ≠ d1`: the
+    piece leaves the line), the promoted piece attacking through the vacated from-square, castling (the rook, along the
+    back rank through the king's home square or up its file) and en passant (lines through the captured pawn's square,
+    and the rank through both vacated squares). -/
+theorem texel_givesCheck_eq (p : Pos) (ok : Sq) (h : Texel.GcWF p ok) (m : Mv) (hp : pseudo p m = true)
+    (hkk : kind p.b[m.f] = 1 → Texel.kingGeom ok m.t = false) :
+    Texel.givesCheck p ok m = inCheck (apply p m).b (!p.wtm) := Texel.givesCheck_eq p ok h m hp hkk
+
+/-- **`MoveGen::givesCheck` for every legal move** (a legal king move never ends next to the other king) -/
+theorem texel_givesCheck_legal (p : Pos) (k ok : Sq) (h1 : Texel.GenWF p k) (h2 : Texel.GcWF p ok) (m : Mv)
+    (hl : legalB p m = true) : Texel.givesCheck p ok m = inCheck (apply p m).b (!p.wtm) :=
+  Texel.givesCheck_legal p k ok h1 h2 m hl
+
+/-- the side condition on king moves cannot be dropped: Ka1-b1 next to a king on c2 is pseudo-legal, the specification
+    counts the black king as attacked afterwards, `givesCheck` (rightly, for the engine never plays that move) says no -/
+theorem texel_givesCheck_kings_adjacent_witness :
+    let p : Pos := { b := (Vector.replicate 64 0 |>.set 0 WKING |>.set 10 BKING), wtm := true, castle := 0, ep := none, hmc := 0, fmc := 1 }
+    let m : Mv := { f := sq 0, t := sq 1, promo := 0 }
+    Texel.gcWFb p (sq 10) = true ∧ pseudo p m = true ∧ legalB p m = false ∧
+    Texel.givesCheck p (sq 10) m = false ∧ inCheck (apply p m).b (!p.wtm) = true := by decide
+
+/-- the decidable form of the `givesCheck` hypotheses, evaluated by the driver on every tested position -/
+theorem texel_gcWF_of_check (p : Pos) (ok : Sq) (h : Texel.gcWFb p ok = true) : Texel.GcWF p ok := Texel.gcWF_of_b p ok h
+
+-- non-vacuity of the `givesCheck` hypotheses: a bare-kings position
+example : Texel.GcWF { b := (Vector.replicate 64 0 |>.set 0 WKING |>.set 63 BKING), wtm := true, castle := 0, ep := none, hmc := 0, fmc := 1 } (sq 63) :=
+  Texel.gcWF_of_b _ _ (by decide)
 
 -- non-vacuity of the generator hypotheses: a bare-kings position
 example : Texel.GenWF { b := (Vector.replicate 64 0 |>.set 0 WKING |>.set 63 BKING), wtm := true, castle := 0, ep := none, hmc := 0, fmc := 1 } (sq 0) :=
